@@ -76,10 +76,13 @@ TripleSize(s) == LET n == Len(s)  r == n % 3 IN
 EdifactSize(s) == LET n == Len(s) IN 1 + 3 * ((n + 1) \div 4) + ((n + 1) % 4)
 TripleOK == "ascii" \in En \/ Len(Body) % 3 = 0
 \* upper bound on the codewords needed, from the closed forms (-1: no closed form applies)
-UpperBound ==
-  LET cands ==
+PlainCands ==
         (IF "ascii" \in En THEN {IF "b256" \in En THEN MixedSize(Body) ELSE AsciiSize(Body)} ELSE {})
         \cup (IF "b256" \in En /\ Len(Body) <= 1555 THEN {B256Size(Body)} ELSE {})
+\* the ASCII / Base256 forms only (used by C16: a refusal of a compacted message; C10 uses all closed forms on its fixed case set)
+UpperBoundPlain == IF PlainCands = {} THEN -1 ELSE PrefixLen + (CHOOSE m \in PlainCands : \A o \in PlainCands : m <= o)
+UpperBound ==
+  LET cands == PlainCands
         \cup (IF Len(Body) > 0 /\ "c40" \in En /\ TripleOK /\ AllBytes(Body, C40Single) THEN {TripleSize(Body)} ELSE {})
         \cup (IF Len(Body) > 0 /\ "text" \in En /\ TripleOK /\ AllBytes(Body, TextSingle) THEN {TripleSize(Body)} ELSE {})
         \cup (IF Len(Body) > 0 /\ "x12" \in En /\ TripleOK /\ AllBytes(Body, X12Native) THEN {TripleSize(Body)} ELSE {})
@@ -115,7 +118,7 @@ EvEncode ==
           \cup (IF k \in {"TooMuch", "ListEmpty"} /\ Case.list # <<>> /\ UpperBound >= 0 /\ MinCapFor(ListSet, UpperBound) >= 0
                 THEN {"C10.tooMuchButPlainFits"} ELSE {})
           \* C16: a message that is due for compaction and fits after compaction must not be refused
-          \cup (IF k \in {"TooMuch", "ListEmpty"} /\ Case.list # <<>> /\ MacroDue /\ UpperBound >= 0 /\ MinCapFor(ListSet, UpperBound) >= 0
+          \cup (IF k \in {"TooMuch", "ListEmpty"} /\ Case.list # <<>> /\ MacroDue /\ UpperBoundPlain >= 0 /\ MinCapFor(ListSet, UpperBoundPlain) >= 0
                 THEN {"C16.macroRefused"} ELSE {})
           \cup (IF k = "Ok" THEN ShapeFails ELSE {})
      /\ v_rd' = IF k = "Ok" /\ Len(Data) > 0 THEN RInit ELSE v_rd
